@@ -59,7 +59,7 @@ def wf_axioms(ctx, path, unique_names=True):
     ax.append(z3.ForAll([r], z3.Implies(r != nR, z3.And(ch_len(r) >= 1, rparent(r) != nF,
                                                         0 <= g.ridx(r), g.ridx(r) < rel_len(rparent(r)),
                                                         rel_at(rparent(r), g.ridx(r)) == r,
-                                                        0 <= cmin(r), cmin(r) <= cmax(r), cmax(r) <= ch_len(r))),
+                                                        0 <= cmin(r), z3.Or(cmax(r) == -1, z3.And(cmin(r) <= cmax(r), cmax(r) <= ch_len(r))))),
                         patterns=[ch_len(r), rparent(r), cmin(r), cmax(r)]))
     ax.append(z3.ForAll([r, i], z3.Implies(z3.And(r != nR, 0 <= i, i < ch_len(r)),
                                            z3.And(ch_at(r, i) != nF, fparent(ch_at(r, i)) == rparent(r),
@@ -87,7 +87,7 @@ def wf_axioms(ctx, path, unique_names=True):
 
 
 WF_TEXT = ('wf axioms (hand-encoded, pyvc/theory.py): every relation has >= 1 child, a non-null owner that lists it, '
-           '0 <= card_min <= card_max <= len(children); every child points back to the owner of its relation, '
+           '0 <= card_min and (card_max == -1, the unbounded maximum the UVL reader stores for [a..*], or card_min <= card_max <= len(children)); every child points back to the owner of its relation, '
            'sits in exactly one (relation, index) slot, has smaller height and depth + 1 of its parent; feature names are '
            'non-empty and pairwise distinct; the root has no parent; attributes point back to their feature; '
            'fields have their annotated types')
